@@ -1,0 +1,160 @@
+//! Verification hooks (cargo feature `verif-hooks`, off by default).
+//!
+//! Nothing in this module is compiled unless the feature is enabled. The hooks let an external
+//! simulator observe allocator, collector, dispatch and guard events, decide the collector
+//! schedule / allocation failures through the production thresholds, and read the runtime state.
+//! With no controller installed every hook is a no-op.
+
+use std::{alloc::Layout, cell::RefCell, ptr::NonNull};
+
+pub use crate::alloc::{AllocError, AllocProxy, Allocator, CaoLangAllocator, SysAllocator};
+use crate::{
+    value::Value,
+    vm::runtime::{
+        cao_lang_function::CaoLangClosure, cao_lang_object::CaoLangObject, RuntimeData,
+    },
+};
+
+/// Receiver of simulator events. All methods default to no-ops.
+#[allow(unused_variables)]
+pub trait Controller {
+    /// Called at the top of `CaoLangAllocator::alloc`, before the counter is touched. The
+    /// controller may store into `next_gc` / `limit` so that the production code below takes its own
+    /// collect / fail branch.
+    fn before_alloc(&mut self, alloc: &CaoLangAllocator, layout: Layout) {}
+    /// Called on every exit of `CaoLangAllocator::alloc`
+    fn after_alloc(&mut self, alloc: &CaoLangAllocator, layout: Layout, res: Option<NonNull<u8>>) {}
+    /// Called at the top of `CaoLangAllocator::dealloc`
+    fn on_dealloc(&mut self, alloc: &CaoLangAllocator, ptr: NonNull<u8>, layout: Layout) {}
+    fn before_gc(&mut self, rt: &RuntimeData) {}
+    fn after_gc(&mut self, rt: &RuntimeData) {}
+    /// Called at the top of `RuntimeData::free_object`. Returning `true` withholds the drop and
+    /// the release of the object (quarantine).
+    fn on_free_object(&mut self, rt: &RuntimeData, obj: NonNull<CaoLangObject>) -> bool {
+        false
+    }
+    /// Called after an instruction has been decoded, before it executes
+    fn on_dispatch(&mut self, opcode: u8, src_ptr: usize, rt: &RuntimeData) {}
+    /// Called after an instruction has finished without error
+    fn after_instr(&mut self, rt: &RuntimeData) {}
+    /// `Vm::_run` entered (also for nested activations started by `run_function`)
+    fn run_enter(&mut self, rt: &RuntimeData) {}
+    /// `Vm::_run` left, on every path
+    fn run_exit(&mut self) {}
+    fn guard_created(&mut self, obj: NonNull<CaoLangObject>) {}
+    fn guard_released(&mut self, obj: NonNull<CaoLangObject>) {}
+    /// A probe loop exceeded its step bound
+    fn nontermination(&mut self, site: &'static str) {}
+}
+
+thread_local! {
+    static CONTROLLER: RefCell<Option<Box<dyn Controller>>> = const { RefCell::new(None) };
+}
+
+/// Install a controller for the current thread, returns the previous one
+pub fn install(c: Box<dyn Controller>) -> Option<Box<dyn Controller>> {
+    CONTROLLER.with(|slot| slot.borrow_mut().replace(c))
+}
+
+/// Remove the controller of the current thread
+pub fn uninstall() -> Option<Box<dyn Controller>> {
+    CONTROLLER.with(|slot| slot.borrow_mut().take())
+}
+
+/// Run `f` on the installed controller. No-op if none is installed, or if a controller callback is
+/// already running (hooks never re-enter the controller).
+#[inline]
+pub fn with<R>(f: impl FnOnce(&mut dyn Controller) -> R) -> Option<R> {
+    CONTROLLER.with(|slot| {
+        let mut slot = slot.try_borrow_mut().ok()?;
+        let c = slot.as_mut()?;
+        Some(f(c.as_mut()))
+    })
+}
+
+/// Payload of the unwinding started when a probe loop exceeds its step bound
+#[derive(Debug)]
+pub struct NonTermination(pub &'static str);
+
+/// Count one probe step; unwinds with [NonTermination] once `bound` is exceeded
+#[inline]
+pub fn probe_step(counter: &mut usize, bound: usize, site: &'static str) {
+    *counter += 1;
+    if *counter > bound {
+        with(|c| c.nontermination(site));
+        std::panic::panic_any(NonTermination(site));
+    }
+}
+
+/// RAII bracket around one activation of `Vm::_run`
+pub struct RunGuard;
+
+impl RunGuard {
+    pub fn enter(rt: &RuntimeData) -> Self {
+        with(|c| c.run_enter(rt));
+        RunGuard
+    }
+}
+
+impl Drop for RunGuard {
+    fn drop(&mut self) {
+        with(|c| c.run_exit());
+    }
+}
+
+/// One call frame as seen by the simulator
+#[derive(Debug, Clone, Copy)]
+pub struct FrameView {
+    pub src_instr_ptr: u32,
+    pub dst_instr_ptr: u32,
+    pub stack_offset: u32,
+    pub closure: *mut CaoLangClosure,
+}
+
+/// Read-only view of the runtime state
+pub struct View<'a> {
+    pub value_stack: &'a [Value],
+    pub value_stack_capacity: usize,
+    pub globals: &'a [Value],
+    pub frames: Vec<FrameView>,
+    pub call_stack_capacity: usize,
+    pub object_list: &'a [NonNull<CaoLangObject>],
+    pub open_upvalues: *mut CaoLangObject,
+    pub memory: &'a AllocProxy,
+    pub has_current_program: bool,
+}
+
+impl RuntimeData {
+    pub fn verif_view(&self) -> View<'_> {
+        View {
+            value_stack: self.value_stack.as_slice(),
+            value_stack_capacity: self.value_stack.verif_capacity(),
+            globals: self.global_vars.as_slice(),
+            frames: self
+                .call_stack
+                .iter()
+                .map(|f| FrameView {
+                    src_instr_ptr: f.src_instr_ptr,
+                    dst_instr_ptr: f.dst_instr_ptr,
+                    stack_offset: f.stack_offset,
+                    closure: f.closure,
+                })
+                .collect(),
+            call_stack_capacity: self.call_stack.capacity(),
+            object_list: self.object_list.as_slice(),
+            open_upvalues: self.open_upvalues,
+            memory: &self.memory,
+            has_current_program: !self.current_program.is_null(),
+        }
+    }
+
+    /// Number of values on the value stack
+    pub fn verif_stack_height(&self) -> usize {
+        self.value_stack.len()
+    }
+
+    /// Number of frames on the call stack
+    pub fn verif_call_depth(&self) -> usize {
+        self.call_stack.len()
+    }
+}
